@@ -12,13 +12,16 @@ Datagram half (spec/UdpMatchOps.tla, UdpMatch.tla):
      datagrams, multi-field forgeries, 1-4 transmissions, IPv4/IPv6) are validated by the
      monitor Trace_UdpMatch, which derives each datagram's view from its concrete fields.
 Stream half (spec/Mux.tla):
-  D: Mux machine satisfies C16_DistinctIds / C16_RoutedById / C16_NoOther / C16_UnknownDropped /
-     C16_CloseFailsAll / C16_FirstReaches (TLC, exhaustive, 3 requests, 3 wire IDs).
+  D: Mux machine satisfies C16_DistinctIds / C16_RoutedById / C16_Reaches / C16_NoOther /
+     C16_UnknownDropped / C16_CloseFailsAll (TLC, exhaustive, 3-4 requests, 3 wire IDs, symmetry).
   R: Gen_Mux enumerates interleavings of sends, deliveries (first, duplicate, stale, unknown,
      undecodable), cancels, clock ticks and close with the reference observation per step; the
-     real DnsMultiplexer is stepped through each by manual polling on a paused clock.
+     real DnsMultiplexer is stepped through each on a paused clock, polled exactly when its task
+     would be woken.  A run that differs from the reference but is accepted by the monitor used
+     a freedom the property leaves (counted, not reported).
   T: the events of those runs and of seeded random runs (up to 40 requests, batches, ID reuse
-     possible) are validated by the monitor Trace_Mux on the real wire IDs.
+     possible), of runs with 400 requests in flight (freshness of IDs), of same-ID bursts and of
+     floods of > 100 arrivals are validated by the monitor Trace_Mux on the real wire IDs.
 """
 import os
 
@@ -88,6 +91,25 @@ def _monitor(res, wd, sub, module, trace_files, shards, half):
         if m["why"].startswith("ADAPTER"):
             raise vlib.ToolError(f"harness inconsistency in {module}: case {m['case']} line {m['line']}: {m['why']}")
         by_case.setdefault(str(m["case"]), m)
+    # cut the recorded events of (a few of) the rejected cases out, for --replay
+    want, per_key = set(), {}
+    for cid, m in by_case.items():
+        key = (_req_of(m["why"]), m["event"].get("ev"), cid.split(":")[0] if ":" in cid else cid[:2])
+        per_key[key] = per_key.get(key, 0) + 1
+        if per_key[key] <= 3 and len(want) < 200:
+            want.add(cid)
+    if want:
+        cur = None
+        with open(allp) as f:
+            for line in f:
+                if '"ev":"reset"' in line:
+                    cid = str(__import__("json").loads(line)["case"])
+                    cur = cid if cid in want else None
+                    if cur:
+                        by_case[cur]["trace"] = []
+                        by_case[cur]["monitor"] = module
+                if cur:
+                    by_case[cur]["trace"].append(line.rstrip("\n"))
     return by_case
 
 
@@ -150,7 +172,7 @@ def run(res, tier, seed):
                              {"kind": v["kind"], "cr": v["input"]["cr"], "nq": v["input"]["nq"],
                               "outcome": v["observed"]["o"], "pos": v["observed"]["pos"]},
                              {"generator": name, "case": v["input"], "allowed": v["expected"], "observed": v["observed"],
-                              "err": v["err"]})
+                              "err": v["err"], "mode": "udp-replay", "gen": v.get("gen")})
             elif v.get("nontrivial") and v["observed"]["o"] == "accept":
                 res.sample({"half": "udp", "case_randomisation": v["input"]["cr"], "questions": v["input"]["nq"],
                             "schedule": v["input"]["sched"], "observed": v["observed"]}, cap=2)
@@ -187,7 +209,7 @@ def run(res, tier, seed):
                              {"kind": v["kind"], "cr": v["input"]["cr"], "nq": v["input"]["nq"],
                               "outcome": v["observed"]["o"], "retransmission": True},
                              {"generator": name, "case": v["input"], "permitted": v["expected"], "observed": v["observed"],
-                              "err": v["err"]})
+                              "err": v["err"], "mode": "udp-replay-retx", "gen": v.get("gen")})
             elif v.get("nontrivial") and v["observed"]["o"] == "accept":
                 res.sample({"half": "udp", "case_randomisation": v["input"]["cr"], "socket1": v["input"]["s1"],
                             "socket2_after_retransmission": v["input"]["s2"], "socket1_late": v["input"]["s1b"],
@@ -338,7 +360,40 @@ def _prefix_cases(path, prefix):
 
 
 def replay(res, path):
+    """Re-runs a case written by a failing run: a generated case goes through the real code again
+    (driver) and its events through the monitor; a recorded trace goes through the monitor again.
+    Exit 1 if it still fails, 0 if it does not."""
     import json
     d = json.load(open(path))
-    print(json.dumps(d, indent=1)[:6000])
-    return 0
+    det = d.get("detail", {})
+    print(json.dumps({k: d[k] for k in ("property", "class", "fields")}, indent=1))
+    vlib.build_harness(BINS)
+    wd = vlib.workdir("c16replay")
+    rc = 0
+    trace = None
+    monitor = det.get("monitor")
+    if det.get("gen"):
+        mode = det["mode"]
+        cpath, trace, vpath = (os.path.join(wd, f"case.{x}.ndjson") for x in ("cases", "trace", "verdicts"))
+        vlib.write_ndjson(cpath, [det["gen"]])
+        vlib.run_driver("drive_c16", [mode, "--trace", trace], stdin_path=cpath, stdout_path=vpath)
+        for v in vlib.read_ndjson(vpath):
+            print("verdict:", json.dumps({k: v[k] for k in ("ok", "observed", "class")}))
+            print("expected:", json.dumps(v["expected"])[:1500])
+            if not v["ok"]:
+                rc = 1
+        monitor = "Trace_Mux" if mode == "mux-replay" else "Trace_UdpMatch"
+    elif det.get("trace"):
+        trace = os.path.join(wd, "case.trace.ndjson")
+        with open(trace, "w") as f:
+            f.write("\n".join(det["trace"]) + "\n")
+    if trace and monitor:
+        mism, _ = vlib.trace_check(os.path.join(S, monitor + ".tla"), os.path.join(S, monitor + ".cfg"), wd, trace)
+        for m in mism:
+            print("monitor:", m["why"])
+            print(json.dumps({k: m[k] for k in m if k not in ("trace",)}, indent=1)[:3000])
+            rc = 1
+        if not mism:
+            print("monitor: trace accepted")
+    print("still failing" if rc else "not failing (any more)")
+    return rc
